@@ -97,6 +97,65 @@ def rand_tree(rng, size, clean=True, top_ns=None, depth=0):
     return node(q, a, t, kids, tl)
 
 
+XS_QNAME = "{%s}QName" % XS
+
+
+def qname_leaf(rng, q, tl, allow_default=True):
+    """`<q xsi:type="xs:QName" ...>prefix:local</q>` whose prefix is declared where the variant says:
+    on the element itself (new prefix `w`, or the root's `p` re-bound), as a default namespace on the
+    element itself, on the root only, or nowhere (unprefixed, no default namespace).
+    Returns (node, outer) with outer = None | (prefix, uri) to be bound on every *other* element."""
+    variants = ["local", "local", "local-outer", "local-outer", "rebind-p", "root-p", "bare"]
+    if allow_default and q.startswith("{"):
+        variants += ["default", "default"]
+    v = rng.choice(variants)
+    n = node(q, [[XSI_TYPE, "xs:QName"]], None, [], tl)
+    outer = None
+    local = rng.choice(["foo", "n-1", "_x"])
+    if v in ("local", "local-outer"):
+        n["ns"].append(["w", "urn:inner"])
+        n["t"] = "w:" + local
+        if v == "local-outer":
+            outer = ("w", "urn:outer")
+    elif v == "rebind-p":
+        n["ns"] = [x for x in n["ns"] if x[0] != "p"] + [["p", "urn:inner"]]
+        n["t"] = "p:" + local
+    elif v == "root-p":
+        n["t"] = "p:" + local
+    elif v == "default":
+        n["ns"].append([None, "urn:dflt"])
+        n["t"] = local
+    else:
+        n["t"] = local
+    if rng.random() < 0.15:
+        n["t"] = " " + n["t"] + "\n"
+    return n, outer
+
+
+def bind_outer(doc, prefix, uri):
+    """bind `prefix` on every element that does not bind it itself (as if declared on the root)"""
+    def go(n):
+        if not any(x[0] == prefix for x in n["ns"]):
+            n["ns"].append([prefix, uri])
+        for c in n["c"]:
+            go(c)
+
+    go(doc)
+    return doc
+
+
+def valid_qname_content(n):
+    """the text of a QName-typed element is a lexical QName whose prefix is in scope"""
+    v = (n["t"] or "").strip()
+    if not v or " " in v:
+        return False
+    nsmap = {p: u for p, u in n["ns"]}
+    if ":" in v:
+        p, local = v.split(":", 1)
+        return p in nsmap and bool(local) and ":" not in local
+    return True
+
+
 def exhaustive_small(max_nodes=2):
     """every tree with <= max_nodes nodes over 3 namespaces x 3 names x 3 texts x 3 tails (x 2 attr sets)"""
     labels_q = [qn(ns, nm) for ns in NAMESPACES for nm in NAMES]
@@ -347,6 +406,10 @@ def norm(t, keep_tail=True, host=False):
     for k, v in t["a"]:
         if k == XSI_TYPE:
             v = resolve(v, nsmap)
+            if v == XS_QNAME and not kids and text is not None:
+                # QName-typed content: compared as the name it denotes in the scope of this element
+                # (the writer may rename the prefix; it may not change the namespace or the type)
+                text = resolve(text, nsmap)
         attrs.append([k, v])
     return {"q": t["q"], "a": sorted(attrs), "t": text, "c": kids, "tl": tail}
 
